@@ -35,6 +35,7 @@ struct XSock {
     std::string inflight;          // the offered message / bytes
     size_t inflight_taken = 0;     // how much of it the peer has already received
     std::string refused_offer;     // byte-stream: the bytes of the last refused (EAGAIN) offer
+    int refusals_in_row = 0;       // byte-stream: consecutive xcm_send calls refused with EAGAIN
     std::string failed_offer;      // byte-stream: bytes of a send that failed because the connection failed; a prefix may have been transmitted
     std::string ghost;             // byte-stream: bytes of a refused send that reached the peer anyway (known btls defect); skipped when re-offered
     bool closed_after_flush = false;   // closed gracefully: every accepted message had been flushed (finish==0 / blocking)
